@@ -126,7 +126,7 @@ Definition check_lts (c : ccase) : N :=
     if negb (gens_ok g) then 220 else
     if negb (nest_ok f) then 221 else
     if negb (lookup_ok f g) then 222 else
-    if negb (mods_ok (c_modifier c) (c_log c)) then 223 else 0
+    if negb (c_failing c || must_fail_t f (c_gty c) (c_nty c)) && negb (mods_ok (c_modifier c) (c_log c)) then 223 else 0
   end.
 
 Definition check_spec (c : ccase) : N :=     (* 0 = agree, otherwise the first check that failed *)
